@@ -100,6 +100,11 @@ def job_estimate(j):
         return res
     res['range'] = rng_of(est)
     res['vals'] = eval_props(est, j['Ts'], j['props'])
+    if j.get('then_decomp'):
+        try:
+            lib.GetDescriptors(j['then_decomp'])
+        except Exception:
+            pass
     # a second estimate object of the same mapping, asked first for the values relative to the elements and for array
     # temperatures, then for the plain values: what an estimate answers must not depend on what it was asked before
     if j.get('predecomp') and not j.get('no_again'):
